@@ -588,6 +588,30 @@ impl Prop for C11 {
     match t {
       "cyclic" => {
         let reg = cyclic_registry();
+        // cross-type pass, first thing in every shard (a fresh process): the listed names of ALL cyclic types are looked up,
+        // the types taken in a shard-specific order (rotated, every other shard reversed). Name tables that share a size
+        // and a first name (Week / SevenStar) or any other fingerprint must not answer for each other, whichever type asks
+        // first in the process.
+        {
+          let mut order: Vec<usize> = (0..reg.len()).collect();
+          order.rotate_left((shard * 5) % reg.len());
+          if shard % 2 == 1 {
+            order.reverse();
+          }
+          for round in 0..2 {
+            for &ti in &order {
+              let cy = &reg[ti];
+              let size = cy.names.len() as i64;
+              for (k, nm) in cy.names.iter().enumerate() {
+                out.class("cross_type_name_lookups");
+                run_case(env, out, "name", &Case { a: vec![ti as i64], f: vec![], s: vec![nm.to_string()], pre: vec![] }, &ev);
+                if round == 0 && (k == 0 || k as i64 == size - 1) {
+                  run_case(env, out, "cyc", &Case::ints(&[ti as i64, k as i64, 1]), &ev);
+                }
+              }
+            }
+          }
+        }
         for (ti, cy) in reg.iter().enumerate() {
           if ti % nshards != shard {
             continue;
